@@ -178,3 +178,16 @@ def remove_shadows(modules):
         for n in ("int", "float"):
             if n in m.__dict__:
                 del m.__dict__[n]
+
+
+def term_of_char(ch):
+    """The term behind the middle code point of a placeholder (for reference readers)."""
+    k = ord(ch) - PH_BASE
+    terms = Ctx.cur.terms
+    if not 0 <= k < len(terms):
+        raise Unsupported("unknown placeholder id")
+    return terms[k]
+
+
+def ge(term, k):
+    return term >= k
